@@ -19,7 +19,8 @@ import time
 
 _real = dict(open=builtins.open, ioopen=io.open, stat=os.stat, scandir=os.scandir, listdir=os.listdir,
              rename=os.rename, replace=os.replace, remove=os.remove, unlink=os.unlink, osopen=os.open,
-             sleep=time.sleep, getpid=os.getpid, rmdir=os.rmdir, mkdir=os.mkdir)
+             sleep=time.sleep, getpid=os.getpid, rmdir=os.rmdir, mkdir=os.mkdir,
+             sendfile=getattr(os, "sendfile", None), copy_file_range=getattr(os, "copy_file_range", None))
 
 _RES = re.compile(r"^xyz-result-(\d+)\.jbdmp$")
 GLOB = "xyz-result-*.jbdmp"
@@ -62,6 +63,7 @@ class Sched(object):
         self.kill_at = None       # C10: SIGKILL this process when the k-th operation is about to happen
         self.count = 0
         self.count_dirfd = False  # C10: operations relative to a directory descriptor are points too
+        self.fdlabels = {}        # fd of a file opened for writing -> its label
         self.log = []             # global order of performed operations: (actor, label)
 
     # -- registration -------------------------------------------------------
@@ -212,6 +214,10 @@ class _Writer(object):
         self._s, self._a, self._f, self._lab = sched, actor, f, lab
         self._buf = bytearray()
         self.closed = False
+        try:
+            sched.fdlabels[f.fileno()] = lab       # descriptor-level copies (sendfile ...) into this file are writes too
+        except Exception:
+            pass
 
     def write(self, data):
         data = bytes(data)
@@ -389,6 +395,18 @@ def _mk_unlink(which, kind="unlink"):
     return f
 
 
+def _mk_fdcopy(which):
+    """os.sendfile / os.copy_file_range into a file an actor is writing: a write operation of that file."""
+    def f(a0, a1, *args, **kw):
+        s = _active[0]
+        a = s.current() if s is not None else None
+        out_fd = a0 if which == "sendfile" else a1
+        if a is not None and out_fd in s.fdlabels:
+            s.point(a, ("write", s.fdlabels[out_fd]))
+        return _real[which](a0, a1, *args, **kw)
+    return f
+
+
 def _sleep(t):
     s = _active[0]
     a = s.current() if s is not None else None
@@ -427,6 +445,10 @@ class Installed(object):
         os.mkdir = _mk_unlink("mkdir", "mkdir")
         time.sleep = _sleep
         os.getpid = _getpid
+        if _real["sendfile"] is not None:
+            os.sendfile = _mk_fdcopy("sendfile")
+        if _real["copy_file_range"] is not None:
+            os.copy_file_range = _mk_fdcopy("copy_file_range")
         return self.sched
 
     def __exit__(self, *a):
@@ -444,6 +466,10 @@ class Installed(object):
         os.mkdir = _real["mkdir"]
         time.sleep = _real["sleep"]
         os.getpid = _real["getpid"]
+        if _real["sendfile"] is not None:
+            os.sendfile = _real["sendfile"]
+        if _real["copy_file_range"] is not None:
+            os.copy_file_range = _real["copy_file_range"]
         _active[0] = None
         return False
 
